@@ -2,9 +2,11 @@ INIT SimInit
 NEXT SimNext
 CONSTANTS
   N = 2
-  MaxSess = 5
+  MaxSess = 6
   MaxRpc = 3
   InLock = TRUE
+  MaxWedged = 1
   MaxBurst = 4
-  Depth = 18
+  MaxHold = 2
+  Depth = 20
 CHECK_DEADLOCK FALSE
